@@ -138,4 +138,10 @@ CHECKS = [
              "rollback then upgrade) x tcp/unix x worker class: no refused connect, pid-file / '.2' naming and promotion within 3 s, the survivor keeps "
              "serving and the unix socket file stays, no third master, the rollback restores the single master with its worker count.",
      "note": "real time with slack; daemon-mode WINCH rollback not in the quick tier"},
+    {"id": "C20", "engine": "R",
+     "technique": "enumerated configuration x history matrix on real root-started masters (exhaustive in thorough, seeded slice in quick); /proc identity oracle for every worker generation",
+     "text": "User/group spellings x initgroups x worker class x bind x generation history (worker killed, HUP, USR2, HUP moving the unix bind): every worker "
+             "of every generation must show 4 x the configured uid and gid in /proc/<pid>/status (and getgrouplist() with initgroups), the application must "
+             "report the same ids, the master stays 0/0, workers survive 2 x timeout, a unix socket is owned uid:gid.",
+     "note": "needs root; the image has no account with supplementary groups, so the Groups oracle is [gid]; servers that refuse to start are counted, not alarmed"},
 ]
